@@ -117,7 +117,9 @@ pub fn shadow_call(cfg: &Cfg, views: &[TrackView], scene: u64, epoch: usize, det
             let q = d.q.unwrap_or(1.0);
             ok &= q >= cfg.vis.q_use;
             if let Some(oa) = own_area {
-                min_margin = min_margin.min((oa[i] - cfg.vis.own_use as f64).abs() * 10.0);
+                // (the library's share is area / (box area + EPS): lower than the exact fraction by
+                // up to EPS / area, which matters for boxes in frame-relative coordinates)
+                min_margin = min_margin.min(((oa[i] - cfg.vis.own_use as f64).abs() - 2.0 * 1e-5 / area.max(1e-12)).max(0.0) * 10.0);
                 ok &= oa[i] >= cfg.vis.own_use as f64;
             }
             ok && d.feat.is_some()
